@@ -130,6 +130,7 @@ func runC06(r *Run) {
 	if r.Want("sendcancel") {
 		c06CancelDuringSend(r)
 	}
+	c06CancelInsideCloseSend(r)
 	if r.Want("resetrace") {
 		c06ResetVersusTrailer(r)
 	}
